@@ -311,10 +311,50 @@ def rule_component_extraction(ctx):
             for l in seen:
                 if 1 <= l <= ex.n_args:
                     lab_src.add(l)
+    # the label list is the component vector gone through in order, element by element: no adaptor that reorders or drops
+    _REORDER = r"Iterator::(rev|skip|take|filter|filter_map|step_by|skip_while|take_while|chain|zip|scan|flat_map)$|slice::.*(sort|sort_by|sort_by_key|sort_unstable|reverse)$|Vec.*::(dedup|retain|swap_remove|remove|truncate|reverse|sort)$"
+    for s in ex.calls():
+        if callee_matches(callee_of(s), r"ArgumentSet::new_with_labels$"):
+            _, lcalls, _ = data_deps(ex, s.node["args"][0])
+            bad = sorted({callee_decl(callee_of(c)).rsplit("::", 1)[-1] for c in lcalls if re.search(_REORDER, callee_decl(callee_of(c)) or "")})
+            # calls made on the label vector itself after it was collected
+            held, _, _ = data_deps(ex, s.node["args"][0], through_calls=False)
+            for c in ex.calls():
+                if re.search(_REORDER, callee_decl(callee_of(c)) or "") and c.node["args"] and any(l in held for l in data_deps(ex, c.node["args"][0], through_calls=False)[0]):
+                    bad = sorted(set(bad) | {callee_decl(callee_of(c)).rsplit("::", 1)[-1]})
+            r.check(not bad, ex.id + "|label-order", "labels-reordered:%s" % bad, "the label list is the component vector in order, element by element", "the label list handed to new_with_labels goes through %s: the position of a label is no longer the new id given to its argument (enumeration index of the component vector)" % bad, s.loc())
     if len_form and not lab_src:
         r.ok(ex.id + "|order", "ids are the positions of the labels in the list handed to new_with_labels", ex.loc())
     else:
         r.check(enum_src and enum_src <= lab_src and len(enum_src) == 1, ex.id + "|order", "order:%s/%s" % (sorted(enum_src), sorted(lab_src)), "ids and labels are derived from the same component vector in the same order", "new ids and labels are not derived from the same vector: ids would not match argument positions", ex.loc())
+    # the merged component of a list of arguments is searched from every listed argument
+    from .. import tags as _tags
+
+    for b in prog.lib_bodies():
+        if b.kind == "closure" or not b.path.startswith("utils::connected_components_computer"):
+            continue
+        lp = {i for i in range(1, b.n_args + 1) if re.match(r"^&\[&", b.local_ty(i))}
+        if not lp:
+            continue
+        for y in prog.with_closures(b):
+            if not any(re.search(r"find_connected_component_of$", callee_decl(callee_of(c)) or "") for c in y.calls()):
+                continue
+            if y is b:
+                # a loop in the function itself
+                for nx in b.calls():
+                    if callee_decl(callee_of(nx)) == "core::iter::traits::iterator::Iterator::next":
+                        k = _tags.list_kind(prog, b, nx.node["args"][0], lp)
+                        if k in ("FULL", "PARTIAL"):
+                            r.check(k == "FULL", b.id + "|merged-list", "merged-list-partial", "the search starts from every listed argument", "the merged component is searched from a part of the listed arguments only: the components of the others are missing from the sub-framework the query is answered on", nx.loc())
+                continue
+            for ps in b.calls():
+                pc = callee_of(ps)
+                if pc and y.path in (pc.get("fn_args") or []) and ps.node["args"]:
+                    k = _tags.list_kind(prog, b, ps.node["args"][0], lp)
+                    if k == "OTHER":
+                        r.ok(b.id + "|merged-list", "NOT decided: the closure searching the components is not applied to the listed arguments as such", ps.loc())
+                    else:
+                        r.check(k == "FULL", b.id + "|merged-list", "merged-list-partial", "the search starts from every listed argument", "the merged component is searched from a part of the listed arguments only: the components of the others are missing from the sub-framework the query is answered on", ps.loc())
     # the component vector has no duplicates: membership flag set before push
     fcc = None
     for b in prog.lib_bodies():
